@@ -317,7 +317,21 @@ impl WorldA {
             for _ in 0..n {
                 let oi = ctx.ch.index(triples.len());
                 let (m, e, t) = triples[oi].clone();
-                let rel = match ctx.ch.draw(4) {
+                let kind = ctx.ch.draw(5);
+                if kind == 4 && !gen.utf8_epochs {
+                    // a pair of epochs that differ only inside bytes that are not valid UTF-8
+                    let (hi1, hi2) = *ctx.ch.pick(&[(0x80u8, 0x81u8), (0xff, 0xfe), (0xc0, 0xc1), (0xf8, 0x9f)]);
+                    for hi in [hi1, hi2] {
+                        let mut e2 = e.clone();
+                        e2.push(hi);
+                        let rel = (m.clone(), e2, t);
+                        if !triples.contains(&rel) {
+                            triples.push(rel);
+                        }
+                    }
+                    continue;
+                }
+                let rel = match kind.min(3) {
                     0 => (m, epoch_bytes(ctx, gen.utf8_epochs), t),
                     1 => (m, e, t + 1),
                     2 => (m, e, (t - 1).max(gen.min_threshold)),
